@@ -16,6 +16,11 @@ StreamOf(st, r, s) == st.str.s[SKey(r, s)]
 SetStream(st, r, s, x) == [st EXCEPT !.str.s = Upd(@, SKey(r, s), x)]
 DelStream(st, r, s) == [st EXCEPT !.str.s = Del(@, SKey(r, s))]
 
+\* per-stream history counters (observation variable): deposited, paid to receiver, validator fees, refunded
+Hist0 == [in |-> 0, paid |-> 0, fees |-> 0, ref |-> 0]
+HistOf(st, r, s) == IF SKey(r, s) \in DOMAIN st.aux.sh THEN st.aux.sh[SKey(r, s)] ELSE Hist0
+Bump(st, r, s, f, n) == [st EXCEPT !.aux.sh = Upd(@, SKey(r, s), [HistOf(st, r, s) EXCEPT ![f] = @ + n])]
+
 Epoch == -2000000000     \* "set to past" marker of a stream that has no deposit yet
 
 Duration(dep, rate) == IF rate <= 0 \/ dep <= 0 THEN 0 ELSE dep \div rate
@@ -41,7 +46,7 @@ ClaimFrom(st, r, s) ==
            s1  == IF fee > 0 THEN Move(st, "stream", "fees", x.den, fee) ELSE st
            s2  == IF pay > 0 THEN Move(s1, "stream", r, x.den, pay) ELSE s1
        IN IF pay > 0 /\ r \in Blocked THEN Fail(st)
-          ELSE OkOut(SetStream(s2, r, s, [x EXCEPT !.dep = c.rem, !.last = st.time]),
+          ELSE OkOut(Bump(Bump(SetStream(s2, r, s, [x EXCEPT !.dep = c.rem, !.last = st.time]), r, s, "paid", pay), r, s, "fees", fee),
                      [total |-> c.claim, pay |-> pay, fee |-> fee, rem |-> c.rem])
 
 (* AddDeposit.  A stream that is refunded after it ran dry starts a new      *)
@@ -60,8 +65,8 @@ AddDeposit(st, r, s, amt, den) ==
                    dzt == IF expired THEN st.time + ext ELSE x.dzt + ext
                    last == IF expired THEN st.time ELSE x.last
                IN IF Spendable(s1, s, den) < amt THEN Fail(st)
-                  ELSE Ok(SetStream(Move(s1, s, "stream", den, amt), r, s,
-                                    [x EXCEPT !.dep = @ + amt, !.dzt = dzt, !.last = last]))
+                  ELSE Ok(Bump(SetStream(Move(s1, s, "stream", den, amt), r, s,
+                                    [x EXCEPT !.dep = @ + amt, !.dzt = dzt, !.last = last]), r, s, "in", amt))
 
 CreateBasicOk(m) == m.dep > 0 /\ m.rate >= 1 /\ m.sender # m.receiver /\ Duration(m.dep, m.rate) >= 60
 Create(st, m) ==
@@ -97,7 +102,7 @@ Cancel(st, m) ==
        IF ~c.ok THEN Fail(st)
        ELSE LET x == StreamOf(c.st, m.receiver, m.sender)
                 s1 == IF x.dep > 0 THEN Move(c.st, "stream", m.sender, x.den, x.dep) ELSE c.st
-            IN Ok(DelStream(s1, m.receiver, m.sender))
+            IN Ok(Bump(DelStream(s1, m.receiver, m.sender), m.receiver, m.sender, "ref", x.dep))
 
 ------------------------------------------------------------------------------
 StrParamsValid(p) == p.feeNum >= 0 /\ p.feeNum <= p.feeDen
@@ -107,6 +112,12 @@ SetStrParams(st, p) == IF StrParamsValid(p) THEN Ok([st EXCEPT !.str.p = p]) ELS
 (* State predicates of C10/C11 *)
 DepositSum(st, d) == SumOver([k \in DOMAIN st.str.s |-> IF st.str.s[k].den = d THEN st.str.s[k].dep ELSE 0], DOMAIN st.str.s)
 EscrowBacked(st) == \A d \in Denoms : BalOf(st, "stream", d) = DepositSum(st, d)
+Conserved(st) == \A k \in DOMAIN st.aux.sh :
+   LET h == st.aux.sh[k] IN h.in = h.paid + h.fees + h.ref + (IF k \in DOMAIN st.str.s THEN st.str.s[k].dep ELSE 0)
+\* never stranded: a funded stream can always be claimed and cancelled (outcomes of the total operators)
+NotStranded(st) == \A k \in DOMAIN st.str.s : st.str.s[k].dep > 0 =>
+   \E r, s \in DOMAIN st.ent.locked : k = SKey(r, s) /\ ClaimFrom(st, r, s).ok
+      /\ Cancel(st, [receiver |-> r, sender |-> s]).ok
 Sustained(st) == \A k \in DOMAIN st.str.s : LET x == st.str.s[k] IN
                    x.dep > 0 /\ x.dzt > x.last => x.dep * 1000 >= x.rate * (x.dzt - x.last)
 =============================================================================
